@@ -5,6 +5,7 @@ from __future__ import annotations
 import asyncio
 import base64
 import hashlib
+import logging
 from typing import Any, Callable
 
 from . import env, noise_ref, wire
@@ -27,6 +28,37 @@ NODELAY_EXC: list[BaseException | None] = [None]  # setsockopt(TCP_NODELAY) on t
 _FOREIGN_LOOP: list[Any] = []  # one per process, never run, never closed
 # what the wall clock reads inside aioesphomeapi.connection (the harness owns it; every new world starts at FIXED_EPOCH + 0.25)
 WALL = [float(FIXED_EPOCH) + 0.25]
+
+
+class _FormatEverything(logging.Handler):
+    """What a real handler does with every record: build the message (formatting errors are the handler's problem, not the caller's)."""
+
+    def emit(self, record: logging.LogRecord) -> None:
+        try:
+            record.getMessage()
+        except Exception:  # noqa: BLE001
+            pass
+
+
+_LOG_HANDLER = _FormatEverything()
+
+
+def real_logging(on: bool) -> None:
+    """Debug logging requested on the object under test goes together with a logger that really is at DEBUG level (that is how
+    applications switch it on): ``isEnabledFor(DEBUG)`` is true and every record is formatted.  Otherwise logging is disabled."""
+    lg = logging.getLogger("aioesphomeapi")
+    if on:
+        logging.disable(logging.NOTSET)
+        lg.setLevel(logging.DEBUG)
+        lg.propagate = False
+        if _LOG_HANDLER not in lg.handlers:
+            lg.addHandler(_LOG_HANDLER)
+    else:
+        logging.disable(logging.CRITICAL)
+        lg.setLevel(logging.NOTSET)
+        if _LOG_HANDLER in lg.handlers:
+            lg.removeHandler(_LOG_HANDLER)
+    lg.manager._clear_cache()  # type: ignore[attr-defined]
 
 
 class _TimeShim:
@@ -252,6 +284,8 @@ class World:
         finally:
             self._hei.socket = self._saved_socket
             self._conn_mod.time = self._saved_time
+            if getattr(self, "_real_logging", False):
+                real_logging(False)
 
 
 # ------------------------------------------------------------------------------------------
@@ -277,6 +311,8 @@ class ConnWorld(World):
         super().__init__()
         if debug is None:
             debug = DEFAULT_DEBUG[0]
+        self._real_logging = bool(debug)
+        real_logging(self._real_logging)
         from aioesphomeapi.connection import APIConnection, ConnectionParams
         from aioesphomeapi.zeroconf import ZeroconfManager
 
